@@ -122,6 +122,12 @@ func runC02(c *fw.Ctx) {
 					x.Data[i] = (8 + 11*k.Rng.Float64()) * []float64{1, -1}[k.Rng.Intn(2)]
 					d := 1 / (math.Cosh(x.Data[i]) * math.Cosh(x.Data[i]))
 					g.Data[i] = (0.5 + k.Rng.Float64()) / d * []float64{1, -1}[k.Rng.Intn(2)] // weighting chosen so that the product is of order 1
+					if k.Rng.Intn(4) == 0 {
+						// far beyond the plateau's edge (|x| = 380..700): cosh^2 exceeds the range, the derivative is exactly 0 in every order of
+						// evaluation, and so is the gradient under an ordinary weighting
+						x.Data[i] = (380 + 320*k.Rng.Float64()) * []float64{1, -1}[k.Rng.Intn(2)]
+						g.Data[i] = (0.5 + k.Rng.Float64()) * []float64{1, -1}[k.Rng.Intn(2)]
+					}
 				default:
 					x.Data[i] = -(300 + 390*k.Rng.Float64())
 					g.Data[i] = (0.5 + k.Rng.Float64()) / math.Exp(x.Data[i]) * 1e-3
@@ -145,7 +151,7 @@ func runC02(c *fw.Ctx) {
 			r := k.Rng
 			shape := RandShape(r, 0, 2, 3)
 			a, b, g := ref.Zeros(shape), ref.Zeros(shape), ref.Zeros(shape)
-			variant := []string{"div-subnormal", "div-tiny", "mul-huge"}[r.Intn(3)]
+			variant := []string{"div-subnormal", "div-tiny", "mul-huge", "div-divisor"}[r.Intn(4)]
 			sign := func() float64 { return []float64{1, -1}[r.Intn(2)] }
 			for i := range a.Data {
 				switch variant {
@@ -157,6 +163,12 @@ func runC02(c *fw.Ctx) {
 					b.Data[i] = sign() * 1e-300 * (0.5 + r.Float64())
 					a.Data[i] = b.Data[i] * (0.5 + 1.5*r.Float64())
 					g.Data[i] = []float64{0, 1e-290 * (0.5 + r.Float64()), -1e-300}[r.Intn(3)]
+				case "div-divisor":
+					// the DIVISOR is the tracked operand: its gradient -g*a/b^2 is an ordinary number (1e250 at most) although g/b alone
+					// overflows (g = 1e200, b = 1e-150) - the magnitudes of weighting, dividend and divisor only fit together
+					b.Data[i] = sign() * 1e-150 * (0.5 + r.Float64())
+					a.Data[i] = sign() * 1e-250 * (0.5 + r.Float64())
+					g.Data[i] = []float64{0, 1e200 * (0.5 + r.Float64()), -1e198}[r.Intn(3)]
 				default:
 					b.Data[i] = sign() * 1e300 * (0.5 + r.Float64())
 					a.Data[i] = sign() * 1e-300 * (0.5 + r.Float64())
@@ -168,6 +180,9 @@ func runC02(c *fw.Ctx) {
 				in.Op = "mul"
 			}
 			xs, mask := []*ref.T{a, b}, []bool{true, false}
+			if variant == "div-divisor" {
+				mask = []bool{false, true}
+			}
 			if in.Op == "mul" && r.Intn(2) == 0 {
 				xs, mask = []*ref.T{b, a}, []bool{false, true}
 			}
